@@ -260,6 +260,9 @@ theorem popAssocs_inv (u : UC) : ∀ (stmts : List Stmt) (s s' : BState), Inv u 
         | none => rw [h1, h2] at he; cases he
         | some c2 =>
           rw [h1, h2] at he; simp only at he
+          by_cases hdu : skeys.any isDunder = true
+          · simp only [hdu, if_true] at he; cases he
+          simp only [hdu, Bool.false_eq_true, if_false] at he
           by_cases hl : (skeys.length != tkeys.length) = true
           · simp only [hl, if_true] at he; cases he
           · simp only [hl, Bool.false_eq_true, if_false] at he
@@ -401,15 +404,15 @@ theorem buildPhases_eq_core (u : UC) (stmts : List Stmt) : buildPhases u stmts =
   | error e => rfl
   | ok s => exact popConnections_ok u stmts s h
 
-/-- without `__x__` identifiers in attribute positions the build is its first four phases -/
-theorem build_eq_core (u : UC) (stmts : List Stmt) (h : touchesInternals stmts = false) : build u stmts = buildCore u stmts := by
-  simp [build, h, buildPhases_eq_core]
+/-- the build is its first four phases: the fifth never raises -/
+theorem build_eq_core (u : UC) (stmts : List Stmt) : build u stmts = buildCore u stmts := by
+  simp [build, buildPhases_eq_core]
 
 /-- BUILD SUCCESS: a well-formed statement list builds, and the built state holds exactly the declared classes in
     statement order (attributes as declared), each with the identifiers, referential attributes and rows its statements
     give it in statement order, and the associations in statement order -/
 theorem build_ok (u : UC) (stmts : List Stmt) (h : BuildOk u stmts) :
     build u stmts = .ok { classes := (newTables stmts).map (builtClass u stmts), assocs := ropsOf stmts } := by
-  rw [build_eq_core u stmts h.plain]; exact buildCore_ok u stmts h
+  rw [build_eq_core u stmts]; exact buildCore_ok u stmts h
 
 end Pyx.Sql
